@@ -829,7 +829,7 @@ func TestGroupChainHistories(t *testing.T) {
 				diffAdds++
 				check(where)
 			case "invalid":
-				kind := rapid.SampledFrom([]string{"wrongPreListed", "wrongPreRemoved", "wrongPreUnknown", "unknownParent", "removedParent", "dupSame", "dupIdOther", "nil"}).Draw(t, "invalidKind")
+				kind := rapid.SampledFrom([]string{"wrongPreListed", "wrongPreRemoved", "wrongPreUnknown", "wrongPreOtherSpelling", "unknownParent", "removedParent", "dupSame", "dupIdOther", "nil"}).Draw(t, "invalidKind")
 				seq++
 				var g *mgroup
 				switch kind {
@@ -849,6 +849,27 @@ func TestGroupChainHistories(t *testing.T) {
 					}
 				case "wrongPreUnknown":
 					g = newGroup(seq, []byte{0xde, 0xad, byte(seq)}, m.list[0].id)
+				case "wrongPreOtherSpelling":
+					// ids are byte strings: another spelling of the same number (a byte in front, leading zero bytes
+					// dropped or added, a byte appended) is not the id of the last group
+					last := m.last().id
+					var pre []byte
+					switch rapid.IntRange(0, 4).Draw(t, "spelling") {
+					case 0:
+						pre = append([]byte{0x00}, last...)
+					case 1:
+						pre = append([]byte{byte(1 + rapid.IntRange(0, 254).Draw(t, "frontByte"))}, last...)
+					case 2:
+						pre = append(append([]byte{}, last...), 0x00)
+					case 3:
+						pre = bytes.TrimLeft(last, "\x00")
+						if len(pre) == len(last) {
+							pre = last[1:]
+						}
+					default:
+						pre = append(bytes.Repeat([]byte{0xab}, 32), last...)
+					}
+					g = newGroup(seq, pre, m.list[0].id)
 				case "unknownParent":
 					unk := sha256.Sum256([]byte{0xbe, 0xef, byte(seq)})
 					g = newGroup(seq, m.last().id, unk[:])
